@@ -162,7 +162,10 @@ def row_words(text, row=15):
         for k, piece in enumerate(text.split("^")):
             out += ([C.pac(row)] if k else []) + row_words(piece, row)
         return out
-    text = text.lstrip("/")
+    text = text.lstrip("/\x01")
+    for other, code in OTHER_MIDROW.items():             # (further codes that occupy a cell: written like '~')
+        if other in text:
+            return [code if w == C.midrow(True) else w for w in row_words(text.replace(other, "~"), row)]
     if "\b" in text:
         out = []
         for k, piece in enumerate(text.split("\b")):
@@ -179,15 +182,22 @@ def row_words(text, row=15):
     return ws
 
 
+OTHER_MIDROW = {"!": C.ctrl("FON"), "@": C.midrow(False, True), "$": C.word(0x11, 0x22)}     # flash on, white underlined, green
+
+
 def pac_for(row, text):
-    """the row's preamble address code: an italic one when the row text is marked with a leading '/'"""
-    return C.pac(row, 0, italics=True) if text.startswith("/") else C.pac(row)
+    """the row's preamble address code: an italic one when the row text is marked with a leading '/'; every leading
+    \\x01 indents it by four columns"""
+    k = len(text) - len(text.lstrip("\x01"))
+    return C.pac(row, 0, italics=True) if text.startswith("/") else C.pac(row, 4 * k)
 
 
 def cells(t):
     """columns a row occupies.  A mid-row code is one cell; where it is followed by a padding word ('~_') the count is
     exact, otherwise such rows are chosen well above / below 32 and the cell is not counted"""
-    t = t.lstrip("/").replace("^", "").rstrip(" ")        # (trailing blanks are not part of the line)
+    t = t.lstrip("/\x01").replace("^", "").rstrip(" ")        # (trailing blanks are not part of the line)
+    for other in OTHER_MIDROW:
+        t = t.replace(other, "~")
     while "\b" in t:                         # a backspace erases the character before it
         k = t.index("\b")
         t = t[:max(k - 1, 0)] + t[k + 1:]
@@ -358,6 +368,15 @@ def bounded(ctx, b):
                      [(5, "/" + ROWS_TEXT[:32]), (9, "/" + ROWS_TEXT[:32]), (1, "~X")]):
             cases.append((mode, True, [rows]))
             cases.append((mode, False, [rows], False, True))
+        # other codes that take a cell between two words (flash on, underline, a colour): 16 + 1 + 16 = 33 columns, 16 + 1 + 15 = 32
+        for o in OTHER_MIDROW:
+            cases.append((mode, True, [[(15, ROWS_TEXT[:16] + o + "_" + ROWS_TEXT[:16])]]))
+            cases.append((mode, True, [[(15, ROWS_TEXT[:16] + o + "_" + ROWS_TEXT[:15])]]))
+            cases.append((mode, True, [[(2, "top"), (15, ROWS_TEXT[:16] + o + "_" + ROWS_TEXT[:16])]], False, True))
+        # two pieces of text addressed to the same row at different indents are two lines, whichever is sent first
+        for gap, (a, b_) in itertools.product([1, 2, 3], [(20, 20), (4, 30), (30, 4), (33, 4), (4, 28)]):
+            cases.append((mode, True, [[(5, ROWS_TEXT[:a]), (5, "\x01" * gap + ROWS_TEXT[:b_])]]))
+            cases.append((mode, True, [[(5, "\x01" * gap + ROWS_TEXT[:b_]), (5, ROWS_TEXT[:a])]]))
         # every structured case once more with doubled control codes
         cases.append((mode, True, [[(1, ROWS_TEXT[:33]), (5, ROWS_TEXT[:5])]], False, True))
         cases.append((mode, False, [[(14, ROWS_TEXT[:32])], [(15, ROWS_TEXT[:33])]], False, True))
@@ -368,7 +387,7 @@ def bounded(ctx, b):
         # (a mid-row code's cell may or may not be reproduced: such rows are chosen well above / below 32 either
         # way, and are not looked up by their exact text in the message)
         longs = [t for t in texts if cells(t) > 32]
-        named_exactly = [t.lstrip("/").replace("^", "").rstrip(" ") for t in longs if "~" not in t]
+        named_exactly = [t.lstrip("/\x01").replace("^", "").rstrip(" ") for t in longs if "~" not in t and not any(o in t for o in OTHER_MIDROW)]
 
         named_exactly = [t for t in named_exactly if "\b" not in t]
 
